@@ -221,6 +221,42 @@ Proof.
     rewrite Carr_nth, Tarr_nth, Ha by auto. rewrite Z.eqb_refl. reflexivity.
 Qed.
 
+(* the two halves of lookup_correct separately: an explicit cell sits in a slot owned by its row; a
+   blank cell never finds a slot owned by its row (used for the default-action layer on top) *)
+Theorem lookup_owner i j : i < rows -> j < cols ->
+  let o := (D i + Z.of_nat j)%Z in
+  (cell i j <> 0%Z -> (0 <= o < Z.of_nat (length C'))%Z /\ nth (Z.to_nat o) C' (-1)%Z = Z.of_nat i /\ nth (Z.to_nat o) T' 0%Z = cell i j) /\
+  (cell i j = 0%Z -> (o < 0)%Z \/ (Z.of_nat (length C') <= o)%Z \/ nth (Z.to_nat o) C' (-1)%Z <> Z.of_nat i).
+Proof.
+  intros Hi Hj. destruct Hinv as [Hocc Hslot Hfull Hdisp Hnd Hdom]. fold slots disp occ in Hocc, Hslot, Hfull, Hdisp, Hnd, Hdom.
+  assert (Hin : In i (rev order ++ [])) by (rewrite app_nil_r; apply in_rev; rewrite rev_involutive; auto).
+  destruct (Hdisp _ Hin) as (d & Hd).
+  cbv zeta. unfold D. rewrite Hd. unfold C', T'. rewrite skipn_length, len_C.
+  pose proof (lead0_le Tarr) as Htl. rewrite len_T in Htl. fold trim in Htl.
+  set (p := d + j). split.
+  - intros Hnz.
+    assert (Hs : In (p, (i, j)) slots) by (apply Hfull with (d := d); auto).
+    pose proof (slot_lt _ _ Hs) as Hp.
+    pose proof (In_assoc _ _ _ Hnd Hs) as Ha.
+    assert (Htp : trim <= p).
+    { destruct (Nat.le_gt_cases trim p); auto. exfalso.
+      pose proof (lead0_zero Tarr p H) as Hz. rewrite Tarr_nth, Ha in Hz by auto. contradiction. }
+    replace (Z.to_nat (Z.of_nat d - Z.of_nat trim + Z.of_nat j)) with (p - trim) by (unfold p in *; lia).
+    rewrite !nth_skipn. replace (trim + (p - trim)) with p by lia.
+    rewrite Carr_nth, Tarr_nth, Ha by auto. split; [unfold p in *; lia|]. split; reflexivity.
+  - intros Hz.
+    destruct (Z_lt_ge_dec (Z.of_nat d - Z.of_nat trim + Z.of_nat j) 0) as [Hneg|Hpos]; [left; exact Hneg|right].
+    destruct (Z_le_gt_dec (Z.of_nat (n - trim)) (Z.of_nat d - Z.of_nat trim + Z.of_nat j)) as [Hbig|Hsmall]; [left; exact Hbig|right].
+    replace (Z.to_nat (Z.of_nat d - Z.of_nat trim + Z.of_nat j)) with (p - trim) by (unfold p; lia).
+    rewrite !nth_skipn. replace (trim + (p - trim)) with p by (unfold p; lia).
+    assert (Hp : p < n) by (unfold p; lia).
+    rewrite Carr_nth by auto.
+    destruct (assoc p slots) as [[i' j']|] eqn:Ha; [|lia].
+    intro Heq. apply Nat2Z.inj in Heq. subst i'. apply assoc_In in Ha.
+    destruct (Hslot _ _ _ Ha) as (_ & _ & Hc & d' & Hd' & Hpe). rewrite Hd in Hd'. inversion Hd'; subst d'.
+    assert (j' = j) by (unfold p in Hpe; lia). subst j'. contradiction.
+Qed.
+
 End Out.
 End Pack.
 
